@@ -12,6 +12,7 @@ mod svalue;
 mod c13;
 mod c14;
 mod c15;
+mod c16;
 mod schema;
 mod c05;
 mod c06;
@@ -70,6 +71,7 @@ fn main() {
         "c13" => c13::run(&args),
         "c14" => c14::run(&args),
         "c15" => c15::run(&args),
+        "c16" => c16::run(&args),
         "c05" => c05::run(&args),
         "c06" => c06::run(&args),
         "c06b64" => c06::run_b64(&args),
